@@ -25,7 +25,7 @@ from ..sweep import sweep
 ID = 'C08'
 LEVEL = 'exploration'
 RULE = ('three arms, chosen per run.  sched: 2-3 client tasks (committers, '
-        'readers, an undoer) and 1-2 packer tasks on a DB over FileStorage '
+        'readers, an undoer) and 1-3 packer tasks on a DB over FileStorage '
         'on the simulated disk, interleaved by the seeded scheduler at lock '
         'and file-I/O operations, pack time chosen around the clients\' '
         'commits; oracle: C02 snapshot checks against the complete commit '
